@@ -150,7 +150,8 @@ def gen(ctx, rnd, quick):
         add("stack-carries-over", bytes([0x75]) * 998 + bytes([0x51]) if False else bytes([0x6d]) * 499 + bytes([0x75]), bytes([0x51]) * 1000, flags=NOCLEAN)
         add("stack-limit-across", bytes([0x51]), bytes([0x51]) * 1000, flags=NOCLEAN)
         add("undefined-opcode-in-dead-branch", bytes([0x51, 0x87]), bytes([0x00, 0x63, rnd.choice((0xbb, 0xc0, 0xfe)), 0x68, 0x51]), flags=NOPUSH, finding="F-C03-undefined-opcode-refused")
-        add("empty-scriptpubkey-sigpushonly", b"", bytes([0x51, 0x61]), finding="F-C03-empty-scriptpubkey")
+        add("empty-scriptpubkey-sigpushonly", b"", bytes([0x51, 0x61]), flags=(R.STD | (1 << FB["SIGPUSHONLY"])) & ~(1 << FB["CLEANSTACK"]), finding="F-C03-empty-scriptpubkey")
+        add("empty-scriptpubkey", b"", bytes([0x51, 0x61]), finding="F-C03-empty-scriptpubkey")
         wsf = bytes([0x00])
         add("witness-flag-off", b"\x00\x20" + P.sha256(wsf), b"", [wsf],
             flags=R.STD & ~(1 << FB["WITNESS"]) & ~(1 << FB["CLEANSTACK"]) & ~(1 << FB["TAPROOT"]), finding="F-C03-witness-flag-off")
